@@ -23,7 +23,7 @@ from .c13 import type_class
 RULE = ("terminal forms {bare value, tuple, list, dict, nested sequences, explicit ResultTTree with arbitrary names incl. prefix-duplicates, digits, long and non-identifier names, wrong label counts} "
         "x column expressions from qgen and bare declared members x 3 backends; distinct = distinct (backend, terminal form, column shapes/kinds); non-trivial = at least 2 columns or a sequence column")
 ASSUME = ["type expectations are classes (integral / floating / bool) except for a bare declared member, whose declared type is expected exactly",
-          "conditional / Min / Max / ** columns may be floating although Python's value is an int"]
+          "conditional / Min / Max / ** / math-function columns may be floating although Python's value is an int"]
 
 PREFIX = {"atlas": "atlas_xaod", "cms_aod": "cms_aod", "cms_miniaod": "cms_miniaod"}
 EXACT = {"pt": "double", "eta": "double", "nTrk": "int", "width": "float", "isGood": "bool", "ttype": "float"}  # ttype: declared double with tree_type float
@@ -187,7 +187,7 @@ def check_book(case: Dict[str, Any], r: Dict[str, Any], refs) -> Optional[str]:
             kinds |= depth_and_kinds(v)[1]
         if element_is_conditional(col[0]) and tc != "float":
             return f"column {br['name']}: the expression is a conditional (floating by the property's wording), booked {br['type']} ({col[0][:80]})"
-        floating_ok = bool(re.search(r"\bif\b|\.Min\(|\.Max\(|Min\(|Max\(|\*\*", col[0]))
+        floating_ok = bool(re.search(r"\bif\b|\.Min\(|\.Max\(|Min\(|Max\(|\*\*", col[0])) or bool(_MATH_CALL.search(col[0]))
         if kinds == {"bool"} and tc != "bool" and not floating_ok:
             return f"column {br['name']}: values are booleans, booked {br['type']} ({col[0][:80]})"
         if kinds == {"int"} and tc == "float" and re.search(r"Sum\(|Aggregate\(", col[0]) and all(x == 0 for v in vals for x in _flat(v)):
@@ -197,6 +197,12 @@ def check_book(case: Dict[str, Any], r: Dict[str, Any], refs) -> Optional[str]:
         if "float" in kinds and tc != "float":
             return f"column {br['name']}: values are floating, booked {br['type']} ({col[0][:80]})"
     return None
+
+
+# the documented math functions are cmath's (floating) functions: abs / floor / round ... of an integer is an int in Python, the
+# column may be floating
+from ..refrt import MATHFN as _MF  # noqa: E402
+_MATH_CALL = re.compile(r"(?<![\w.])(" + "|".join(sorted(set(_MF) | {"abs", "pow"}, key=len, reverse=True)) + r")\(")
 
 
 def element_is_conditional(text: str) -> bool:
